@@ -225,7 +225,9 @@ class WritableVersion(dns.zone.WritableVersion):
         if self.zone.relativize:
             return name == dns.name.empty
         else:
-            return name == self.zone.origin
+            # Use the version's origin: the zone's own origin is not set until the
+            # first commit when it comes from a $ORIGIN directive.
+            return name == self.origin
 
     def _maybe_cow_with_name(
         self, name: dns.name.Name
